@@ -208,7 +208,7 @@ impl Encoder for TTYEncoder {
             },
             ScrollRegion { start, end } => {
                 if end > start {
-                    write!(out, "\x1b[{};{}r", start + 1, end + 1)?;
+                    write!(out, "\x1b[{};{}r", start as u128 + 1, end as u128 + 1)?;
                 } else {
                     write!(out, "\x1b[r")?;
                 }
